@@ -113,6 +113,40 @@ func (env *SpecEnv) btreeSpec(name string, n *ast.CallExpr) (SV, bool) {
 			panic("spec: " + err.Error())
 		}
 		return intSV(e.typeID(t)), true
+	case "extStr", "extInt", "extBool", "extF64":
+		// the uninterpreted function that models an external library function (same symbol as the call rule uses)
+		nm, _ := strconv.Unquote(n.Args[0].(*ast.BasicLit).Value)
+		var ts []*Term
+		var sorts []string
+		for _, a := range n.Args[1:] {
+			t := scal(env.eval(a))
+			ts = append(ts, t)
+			sorts = append(sorts, t.Sort)
+		}
+		ret := map[string]string{"extStr": SStr, "extInt": SInt, "extBool": SBool, "extF64": SF64}[name]
+		rt := map[string]types.Type{"extStr": types.Typ[types.String], "extInt": types.Typ[types.Int], "extBool": types.Typ[types.Bool], "extF64": types.Typ[types.Float64]}[name]
+		return &Scalar{T: ufun("ext."+nm, sorts, ret, ts...), Ty: rt}, true
+	case "indexOf":
+		return intSV(app(SInt, "str.indexof", scal(env.eval(n.Args[0])), scal(env.eval(n.Args[1])), intLit(0))), true
+	case "substr":
+		lo, hi := scal(env.eval(n.Args[1])), scal(env.eval(n.Args[2]))
+		return &Scalar{T: app(SStr, "str.substr", scal(env.eval(n.Args[0])), lo, sub(hi, lo)), Ty: types.Typ[types.String]}, true
+	case "fabs":
+		return &Scalar{T: app(SF64, "fp.abs", scal(env.eval(n.Args[0]))), Ty: types.Typ[types.Float64]}, true
+	case "fneg":
+		return &Scalar{T: app(SF64, "fp.neg", scal(env.eval(n.Args[0]))), Ty: types.Typ[types.Float64]}, true
+	case "fsqrt":
+		return &Scalar{T: app(SF64, "fp.sqrt", mk("RoundingMode", "RNE"), scal(env.eval(n.Args[0]))), Ty: types.Typ[types.Float64]}, true
+	case "ffloor":
+		return &Scalar{T: app(SF64, "fp.roundToIntegral", mk("RoundingMode", "RTN"), scal(env.eval(n.Args[0]))), Ty: types.Typ[types.Float64]}, true
+	case "fceil":
+		return &Scalar{T: app(SF64, "fp.roundToIntegral", mk("RoundingMode", "RTP"), scal(env.eval(n.Args[0]))), Ty: types.Typ[types.Float64]}, true
+	case "i2f":
+		return &Scalar{T: app(SF64, "(_ to_fp 11 53)", mk("RoundingMode", "RNE"), app("Real", "to_real", scal(env.eval(n.Args[0])))), Ty: types.Typ[types.Float64]}, true
+	case "fdiv":
+		return &Scalar{T: app(SF64, "fp.div", mk("RoundingMode", "RNE"), scal(env.eval(n.Args[0])), scal(env.eval(n.Args[1]))), Ty: types.Typ[types.Float64]}, true
+	case "floordiv":
+		return intSV(app(SInt, "div", scal(env.eval(n.Args[0])), scal(env.eval(n.Args[1])))), true
 	case "wrap64":
 		return intSV(app(SInt, "wrap64", scal(env.eval(n.Args[0])))), true
 	case "tdiv":
